@@ -17,6 +17,12 @@ def dispatch (op : String) (args : List String) : String :=
   | "pk.of" => Driver.Bls.pkOf args
   | "pk.zcash" => Driver.Bls.pkZcash args
   | "sig.expect" => Driver.Bls.sigExpect args
+  | "bls.verify" => Driver.Bls.blsVerify args
+  | "bls.many" => Driver.Bls.blsMany args
+  | "agg.sk" => Driver.Bls.aggSk args
+  | "agg.pk" => Driver.Bls.aggPk args
+  | "agg.sig" => Driver.Bls.aggSig args
+  | "spock" => Driver.Bls.spock args
   | "e1" => Driver.Bls.e1Gen args
   | "e2" => Driver.Bls.e2Gen args
   | "ecdsa" => Driver.Ecdsa.run args
